@@ -109,6 +109,9 @@ func (e *env) runStatements(rnd *rand.Rand, no0 int) {
 		if c.Quick() && !sk.Core {
 			continue
 		}
+		if !e.ensureAlive("phase Q") || e.tooMany() {
+			return
+		}
 		sk := sk
 		method := "POST"
 		b := batch{Key: method + " /query stmt=" + sk.Kind, Route: Route{Method: method, Pattern: "/query"}, Need: sk.Need, No: no0 + i,
@@ -169,6 +172,7 @@ func (e *env) runSufficientStmt(sk stmtKind) {
 			case resp.Status/100 == 2 && bodyOnlyErrors(resp.Body):
 				v = "accepted-statement-error"
 				c.Count("sufficient-statement-error:"+sk.Kind, 1)
+				c.Distinct("sufficient-statement-errors-"+e.tag(), sk.Kind+" ["+w.class+"]: "+trunc(resp.Body, 110))
 			case resp.Status/100 != 2:
 				v = fmt.Sprintf("accepted-status-%d", resp.Status)
 			}
